@@ -547,7 +547,11 @@ func fillValue(r *RNG, v reflect.Value, depth int) {
 			n := r.Intn(4)
 			s := reflect.MakeSlice(t, n, n+r.Intn(3)*2) // built by append: spare capacity is normal
 			for i := 0; i < n; i++ {
-				s.Index(i).Set(reflect.ValueOf(diam.NewAVP(9007, 0x40, 0, datatype.Unsigned32(r.U32()))))
+				a := diam.NewAVP(9007, 0x40, 0, datatype.Unsigned32(r.U32()))
+				if r.Chance(40) { // written as a literal, as a caller may: no cached Length
+					a = &diam.AVP{Code: 9007, Flags: 0x40, Data: datatype.Unsigned32(r.U32())}
+				}
+				s.Index(i).Set(reflect.ValueOf(a))
 			}
 			if n == 0 && r.Bool() {
 				return
@@ -697,6 +701,7 @@ func execReflect(toks []string) string {
 		// the struct is used again for the next message: its ordinary fields get new values (its
 		// pass-through AVP lists stay), it is marshalled into a second message, and the first
 		// message must still be what it was - in memory and for the value it did not share
+		decoded := m2 // the message as read back from the wire
 		before := showAVPs(m.AVP)
 		srcBefore := valueOf(reflect.ValueOf(src).Elem())
 		refillKeepingAVPLists(NewRNG(seed^0x51ed270b), reflect.ValueOf(src).Elem(), 0)
@@ -720,6 +725,22 @@ func execReflect(toks []string) string {
 			}
 		}
 		_ = srcBefore
+		// the destination is used again too: one struct value receives the first message and then
+		// the second; the first message stays what it was
+		if state == "same" {
+			before1, beforeD := showAVPs(m.AVP), showAVPs(decoded.AVP)
+			dstR, dstD := rfFamily[ty](), rfFamily[ty]()
+			if g := guard(func() {
+				_ = m.Unmarshal(dstR)
+				_ = m2.Unmarshal(dstR)
+				_ = decoded.Unmarshal(dstD)
+				_ = m2.Unmarshal(dstD)
+			}); g != "" {
+				state = g
+			} else if showAVPs(m.AVP) != before1 || showAVPs(decoded.AVP) != beforeD {
+				state = "changed-by-unmarshal"
+			}
+		}
 		res += " again=" + state
 	}
 	return res
